@@ -336,11 +336,48 @@ def enumerate_cases(tier):
     names = getattr(e.U, "__all__", [])
     for i in range(len(names)):
         cases.append({"t": "name", "i": i})
+    # quantities constructed by the distribution wrappers (LengthDist(dist, 'km').draw() ..): same construction rule
+    for c in e.classes:
+        if getattr(e.U, c.__name__ + "Dist", None) is not None:
+            cases.append({"t": "qdist", "q": c.__name__})
     # quantities stay what they were constructed as while the rest of the library uses them
     for disp in ("s", "min", "h", "ms"):
         for units in (["h", "min", "s", "ms"], ["min", "min", "h", "day"], ["s", "h", "min", "wk"]):
             cases.append({"t": "held", "display": disp, "units": units})
     return cases
+
+
+def _run_qdist(case, out):
+    """<Quantity>Dist(distribution, unit).draw() constructs Quantity(drawn value, unit): for every declared unit"""
+    from pydsol.core.distributions import DistConstant, DistUniform
+    from pydsol.core.streams import MersenneTwister
+    e = _env()
+    c = e.byname[case["q"]]
+    D = getattr(e.U, c.__name__ + "Dist")
+    st_ = MersenneTwister(3)
+    n = 0
+    for u, f in c._units.items():
+        if type(f) is not float or not f > 0.0 or math.isinf(f):
+            continue
+        for dist, v in ((DistConstant(st_, 2.5), 2.5), (DistUniform(MersenneTwister(11), 1.0, 3.0), None)):
+            try:
+                qd = D(dist, u)
+                x = qd.draw()
+                if v is None:
+                    v = DistUniform(MersenneTwister(11), 1.0, 3.0).draw()
+            except Exception as ex:
+                out.fail("qdist-raises:%s:%s" % (c.__name__, type(ex).__name__), {"unit": u, "error": repr(ex)})
+                return
+            want = _exact_product(v, f)
+            if type(x) is not c or x.unit != u or not _same(float.__float__(x), want):
+                out.fail("qdist-construction:" + c.__name__,
+                         {"unit": u, "drawn": v, "got": [type(x).__name__, getattr(x, "unit", None),
+                                                        float.__float__(x).hex() if isinstance(x, float) else None],
+                          "want": [c.__name__, u, want.hex()]})
+                return
+            n += 1
+    out.nontrivial = n >= 2
+    out.label("quantity-dist")
 
 
 def _run_held(case, out):
@@ -711,6 +748,8 @@ def run_case(case):
         _run_name(case, out)
     elif t == "held":
         _run_held(case, out)
+    elif t == "qdist":
+        _run_qdist(case, out)
     else:
         raise Inconclusive("unknown case shape")
     return out
